@@ -144,6 +144,7 @@ def harness_build(release=False, overflow_checks=None):
     _built[key] = path
     return path
 
+STALLS = []      # cases on which the schedule driver stalled and that were re-run (reported in the evidence)
 def run_impl(lines, binary=None, timeout=1800, nproc=4):
     """runs the case lines through the harness; returns list of int lists (None for a case the harness died on)"""
     if not lines: return []
@@ -155,7 +156,20 @@ def run_impl(lines, binary=None, timeout=1800, nproc=4):
         while todo:
             p = subprocess.run([binary], input="\n".join(todo) + "\n", stdout=subprocess.PIPE, stderr=subprocess.PIPE, text=True, timeout=timeout, env=ENV)
             got = [[int(x) for x in l.split()] for l in p.stdout.splitlines()]
-            rows += got; err += p.stderr
+            err += p.stderr
+            if p.returncode == 77 and got and got[-1] == [-9999]:
+                # the schedule driver stalled on the case after the answered ones: re-run that case alone, once, in a fresh process
+                got = got[:-1]; rows += got; todo = todo[len(got):]
+                stalled = todo[0]; todo = todo[1:]
+                try:
+                    q = subprocess.run([binary], input=stalled + "\n", stdout=subprocess.PIPE, stderr=subprocess.PIPE, text=True, timeout=120, env=ENV)
+                    again = [[int(x) for x in l.split()] for l in q.stdout.splitlines()]
+                    rows.append(again[0] if again and again[0] != [-9999] else None)
+                except subprocess.TimeoutExpired:
+                    rows.append(None)
+                STALLS.append(stalled)
+                continue
+            rows += got
             # exit code 75: the harness answered its last case and asks for a fresh process (a worker thread could not be joined)
             if p.returncode == 75 and got: todo = todo[len(got):]
             else: break
